@@ -94,6 +94,8 @@ def svd(x, full_matrices=True, compute_uv=True, **kw):
   for t_ in (u, s, vt):
     t_.tags["svd_of"] = x
   cur().axioms_used.add("svd: singular values descending and >= 0")
+  cur().ghost["last_svd"] = (u, s, vt)
+  cur().ghost.setdefault("svds", []).append((x, u, s, vt))
   if not compute_uv:
     return s
   return u, s, vt
